@@ -333,6 +333,53 @@ def r4_reauth(ctx, prog):
                     r.violation(g['qname'], site, 'the re-authentication requirement is dropped outside C_Login', file=g['file'], line=c['l'])
 
 
+def r5_list_effects(ctx, prog):
+    """The configured list is applied with operations that really change it: on the negative branch the element is removed by a mutating container operation
+    (list::remove / erase), on the positive branch added; an algorithm call whose result is dropped (std::remove without erase) changes nothing."""
+    r = ctx.rule('C07.R5', 'slots.mechanisms is applied by mutating operations on the advertised list (no algorithm call with a dropped result)', floor=2, engine='E2')
+    f = prog.fn('SoftHSM::prepareSupportedMecahnisms')
+    ctx.analysed(f)
+    def is_list(e):
+        return e is not None and canon(e).endswith('supportedMechanisms')
+    neg = [n for n in walk(f['body']) if n.get('k') == 'If' and re.fullmatch(r'!?negative', canon(n['c']))]
+    removing, adding = [], []
+    for n in neg:
+        pos_branch, neg_branch = (n['t'], n.get('e')) if canon(n['c']) == '!negative' else (n.get('e'), n['t'])
+        for br, acc in ((neg_branch, removing), (pos_branch, adding)):
+            if br is None:
+                continue
+            for c in calls(br):
+                acc.append(c)
+    site = 'negative entries are removed'
+    rem_ok = [c for c in removing if short(c.get('callee')) in ('remove', 'erase', 'remove_if') and is_list(c.get('recv'))]
+    dropped = [c for c in calls(f['body']) if (c.get('callee') or '').startswith('std::') and short(c.get('callee')) in ('remove', 'remove_if', 'unique') and c.get('recv') is None]
+    used = set()
+    for n in walk(f['body']):
+        if n.get('k') in ('Assign', 'Decl', 'Return', 'Call'):
+            for key in ('b', 'e'):
+                if isinstance(n.get(key), dict):
+                    used |= {id(x) for x in walk(n[key])}
+            for d in n.get('decls', []) if n.get('k') == 'Decl' else []:
+                if d.get('init') is not None:
+                    used |= {id(x) for x in walk(d['init'])}
+            if n.get('k') == 'Call':
+                for a in n.get('args', []):
+                    used |= {id(x) for x in walk(a)}
+    dropped = [c for c in dropped if id(c) not in used]
+    if dropped:
+        r.violation(f['qname'], site, 'std::%s at line %s is called for its side effect and its result is dropped: the algorithm only shifts elements, the list keeps its length and its last element can never be removed — a mechanism named in a negative slots.mechanisms list stays advertised and accepted' % (short(dropped[0]['callee']), dropped[0]['l']),
+                    file=f['file'], line=dropped[0]['l'])
+    elif not rem_ok:
+        r.violation(f['qname'], site, 'no mutating removal (list::remove / erase) on supportedMechanisms in the negative branch', file=f['file'], line=f['line'])
+    else:
+        r.ok(f['qname'], site, 'supportedMechanisms.%s' % short(rem_ok[0]['callee']), file=f['file'], line=rem_ok[0]['l'])
+    add_ok = [c for c in adding if short(c.get('callee')) in ('push_back', 'insert', 'emplace_back') and is_list(c.get('recv'))]
+    if add_ok:
+        r.ok(f['qname'], 'positive entries are added', 'supportedMechanisms.%s' % short(add_ok[0]['callee']), file=f['file'], line=add_ok[0]['l'])
+    else:
+        r.violation(f['qname'], 'positive entries are added', 'no insertion into supportedMechanisms in the positive branch', file=f['file'], line=f['line'])
+
+
 def run(ctx):
     prog = ctx.prog('ossl-file')
     mx = matrix(ctx, prog)
@@ -340,9 +387,12 @@ def run(ctx):
     r2_config(ctx, prog, mx)
     r3_tables(ctx, prog, mx)
     r4_reauth(ctx, prog)
+    r5_list_effects(ctx, prog)
 
 
 MUTANTS = [
+    dict(name='negative-list-std-remove-without-erase', rule='C07.R5', file='src/lib/SoftHSM.cpp', after='void SoftHSM::prepareSupportedMecahnisms',
+         old='\t\t\t\t\tsupportedMechanisms.remove(mechanism);', new='\t\t\t\t\tstd::remove(supportedMechanisms.begin(), supportedMechanisms.end(), mechanism);'),
     dict(name='macsigninit-no-sign-flag', rule='C07.R1a', function='MacSignInit', file='src/lib/SoftHSM.cpp', after='CK_RV SoftHSM::MacSignInit(',
          old='\tif (!key->getBooleanValue(CKA_SIGN, false))\n\t\treturn CKR_KEY_FUNCTION_NOT_PERMITTED;\n', new=''),
     dict(name='symencryptinit-no-permitted', rule='C07.R1b', function='SymEncryptInit', file='src/lib/SoftHSM.cpp', after='CK_RV SoftHSM::SymEncryptInit(',
